@@ -180,6 +180,14 @@ func FsRemoved(path string) bool {
 	return err != nil
 }
 
+// NativeAtomicTmpDir (INTRINSIC: no-op) declares (and creates) the temporary
+// directory the caller asked for: the replay driver checks on the strace
+// output that the published file was prepared there.
+func NativeAtomicTmpDir(path string) {
+	_ = os.MkdirAll(path, 0o700)
+	fmt.Printf("VERIF-ATOMIC-TMPDIR %s\n", path)
+}
+
 // NativeAtomicDest (INTRINSIC: no-op) declares a destination whose publication
 // the replay driver checks on the real system calls (strace).
 func NativeAtomicDest(path string) {
